@@ -29,12 +29,41 @@ class Check(PropertyCheck):
     QUICK_N = 200
 
     def make_impl(self, scenario):
+        if scenario.meta.get("kind") == "env":
+            from impl_ext import ImplEnv
+            return ImplEnv(filter_style=scenario.meta.get("filter_style", "callable"))
         from impl_ext import ImplGraph
         return ImplGraph(scenario.meta.get("filter_style", "callable"))
 
     def generate(self, rng, n, tier):
-        for _ in range(n):
+        for i in range(n):
+            if i % 10 == 9:
+                yield self.env_scenario(rng)
+                continue
             yield self.scenario(rng, tier)
+
+    def env_scenario(self, rng: random.Random) -> Scenario:
+        """The environment: after `env.reset()` AND after a reset of its dispatcher alone (`env.dispatcher.reset()`), every later step
+        returns what a freshly built environment returns for the same decisions - also when nothing is observed in between."""
+        family, jobs = gen.gen_instance(rng, rng.choice(["classic", "irregular", "recirc", "flexible", "ties"]), max_jobs=3, max_machines=3,
+                                        max_ops=3)
+        f = gen.gen_filter(rng)
+        b = rng.choice(["disjunctive", "agent_task", "agent_task_jobs", "complete_agent_task"])
+        feats = rng.sample(["is_ready -", "duration -", "is_scheduled -", "remaining_operations -", "is_completed -", "position_in_job -",
+                            "earliest_start_time -"], rng.randint(1, 3))
+        lines = ["new", instance_line(jobs), gen.filter_line(f),
+                 f"env {b} 1 1 {rng.choice(['makespan', 'idle'])} 1 ; " + " ; ".join(feats), "mark setup-done", "ereset"]
+        total = gen.num_ops(jobs)
+        before = after = 0
+        for ep in range(rng.randint(2, 3)):
+            for _ in range(total if rng.random() < 0.4 else rng.randint(1, total)):
+                lines.append(f"eauto {rng.randint(0, 50)}")
+                before, after = (before + 1, after) if ep == 0 else (before, after + 1)
+            lines.append(rng.choice(["ereset", "edreset", "edreset"]))
+        lines.append(f"eauto {rng.randint(0, 50)}")
+        return Scenario(lines, {"kind": "env", "family": family, "filter": "none" if f is None else "+".join(f) or "empty-composite",
+                                "flexible": gen.is_flexible(jobs), "zero_dur": gen.has_zero(jobs), "before": before, "after": after,
+                                "observers": 3, "filter_style": rng.choice(["callable", "enum", "str"])})
 
     def scenario(self, rng: random.Random, tier) -> Scenario:
         family, jobs = gen.gen_instance(rng, max_jobs=4, max_ops=3 if tier == "quick" else 4)
@@ -116,6 +145,35 @@ class Check(PropertyCheck):
     def oracle(self, impl, scenario, index, line, out, ctx):
         """Shadow world: fresh real objects that only ever see the events after the last reset."""
         res = []
+        if scenario.meta.get("kind") == "env":
+            from impl_ext import ImplEnv
+            if line == "new":
+                ctx["setup"], ctx["shadow"], ctx["setup_done"] = [], None, False
+                return res
+            if not ctx.get("setup_done"):
+                ctx["setup"].append(line)
+                ctx["setup_done"] = line == "mark setup-done"
+                return res
+            if line in ("ereset", "edreset"):
+                # a freshly built environment (its dispatcher is fresh; `ereset` additionally returns the first observation)
+                shadow = ImplEnv(filter_style=scenario.meta.get("filter_style", "callable"))
+                for l in ["new"] + ctx["setup"]:
+                    shadow.exec(l)
+                ctx["shadow"] = shadow
+                if line == "ereset":
+                    want = shadow.exec("ereset")
+                    if want != out:
+                        res.append(("reset-vs-fresh:ereset", "the observation env.reset() returns differs from a freshly built environment's first observation"))
+                return res
+            shadow = ctx.get("shadow")
+            if shadow is not None and line.startswith("eauto"):
+                want = shadow.exec(line)
+                if want != out:
+                    a, b = out.split(" | "), want.split(" | ")
+                    diff = next(((x, y) for x, y in zip(a, b) if x != y), (out, want))
+                    res.append(("reset-vs-fresh:step", f"`{line}` after `{[l for l in scenario.lines[:index] if l in ('ereset', 'edreset')][-1]}`: the "
+                                f"reset environment returns `{diff[0][:200]}`, a freshly built one `{diff[1][:200]}`"))
+            return res
         from impl_ext import ImplGraph as ImplFeat
         if line == "new":
             ctx["setup"] = []
